@@ -41,6 +41,24 @@ CHECKS["C03"] = dict(
     technique="Lean 4 proof (invariant over the statement fold) + exhaustive differential correspondence (model driver vs SQLLineageHolder.of)",
 )
 
+CHECKS["C01"] = dict(
+    category="proof",
+    text="Lean model of the sqlfluff extractors on a typed AST of core SQL (Model/Walk.lean: subquery discovery per clause, SQL-89 "
+         "branch, deep join crawl, CTE handling, create/insert target detection) and a denotational specification of the tables a "
+         "statement reads/writes with standard WITH scoping (Spec/Tables.lean). Theorems so far: the regenerated dispatch tables "
+         "are disjoint (dispatch order irrelevant), no-op statement types report nothing for every configuration, dispatch "
+         "totality. The exactness theorem `reads_exact` on the syntactic fragment Frag01 is work in progress; until it lands, "
+         "model = spec on Frag01 rests on the three-way differential: every generated statement (bounded-exhaustive shapes + "
+         "seeded random) is rendered by Lean and run through the real LineageRunner under 4 (quick) / all (thorough) sqlfluff "
+         "dialects and compared with model AND specification; statements outside Frag01 must match the model and fall in a "
+         "listed deviation class",
+    design_ref="DESIGN.md §5 C01, §6 D1-D5, Appendix A/B",
+    note=TB + ". partial: the step text -> sqlfluff tree (third-party grammars) is not modelled; UPDATE/MERGE/COPY/SELECT INTO are not "
+         "in the typed AST yet. Known findings D1, D2, D2w, D3, D4, D5, D7 (table lineage lost at specific syntactic positions).",
+    technique="Lean 4 model + specification with proved dispatch lemmas; three-way differential (implementation / model / specification) "
+              "on Lean-rendered SQL",
+)
+
 NOT_YET = "machinery not built yet (build phase in progress, see DESIGN.md §9)"
 
 
